@@ -23,6 +23,7 @@ import json
 from automata.fa.nfa import NFA
 
 from harness import gen
+from harness import names_xtype as X
 from harness import nfa_mutable as M
 from harness import nfaops_lib as L
 from harness.common import Ctx, Names, call, nfa_iso
@@ -507,6 +508,71 @@ def mutable_option_family(ctx: Ctx, n: int):
         run_mutable_sequence(ctx, refs, mode, quot + _random_steps(rng, refs + [None] * 5, 2), "mutable_option_shared_targets")
 
 
+# ------------------------------------------------------------------ round 4: names equal across types
+def renamed(n: NFA, names: list) -> NFA:
+    """The same automaton with its i-th state (in a fixed order) called names[i]."""
+    order = sorted(n.states, key=repr)
+    f = dict(zip(order, names))
+    junk = [k for k in n.transitions if k not in f]
+    for k in junk:
+        f[k] = ("junk", repr(k))
+    return NFA(states={f[q] for q in n.states}, input_symbols=set(n.input_symbols),
+               transitions={f[k]: {a: {f[t] for t in ts} for a, ts in row.items()} for k, row in n.transitions.items()},
+               initial_state=f[n.initial_state], final_states={f[q] for q in n.final_states})
+
+
+def cross_type_names_family(ctx: Ctx, n: int):
+    """State names that are EQUAL ACROSS TYPES (0 == 0.0 == False == Fraction(0) == Decimal(0) == 0j, equal hashes):
+    in a set they are one key whatever the caller wrote, so the name an operation invents (first unused natural
+    number, index in the state order) must be compared by ==, not by type.  Bounded-exhaustive part: every 60th
+    (thorough: 12th) 2-state NFA over {a} renamed into each single-type pool and two mixed ones × the three unary
+    operations (the ones that add a fresh state).  Random part: shaped operands with names from all styles of
+    `names_xtype.xtype_pool` (also with gaps, so that the first free natural is 0 / in the middle / at the end) under
+    all unary and binary operations, the second operand named from the same pool, from another pool or ordinarily;
+    and as leaves of depth-2 compositions (star of reverse of …)."""
+    rng = ctx.rng
+    twos = list(gen.all_nfas(2, ("a",)))
+    pools = [[0.0, 1.0], [X.Fraction(0), X.Fraction(1)], [X.Decimal(0), X.Decimal(1)], [0j, 1 + 0j], [False, True],
+             [1.0, 0], [0, 2.0], [1, X.Fraction(2)]]
+    for A in twos[::(12 if ctx.thorough() else 60)]:
+        for pool in pools:
+            B = renamed(A, pool)
+            for op in UNARY:
+                check_op(ctx, op, B, None, "cross_type_names_exhaustive")
+    ctx.exhaustive(("every 12th" if ctx.thorough() else "every 60th") + " 2-state NFA over {a} with its states renamed to "
+                   "{0.0,1.0}, {Fraction(0),Fraction(1)}, {Decimal(0),Decimal(1)}, {0j,1+0j}, {False,True}, {1.0,0}, {0,2.0}, "
+                   "{1,Fraction(2)} × kleene_star, option, reverse")
+    for _ in range(n):
+        alpha = list(rng.choice(gen.ALPHABETS[:4]))
+        k = rng.randint(1, 4)
+
+        def one(names):
+            q = rng.random()
+            if q < 0.15:
+                return L.degenerate_nfa(rng, alpha, list(names))[1]
+            if q < 0.45 and len(names) >= 2:
+                return dense_nfa(rng, alpha, len(names), list(names))
+            x = gen.rand_nfa(rng, len(names), alphabet=alpha, names=list(names), min_states=len(names))
+            if q > 0.9:
+                x = L.with_junk_rows(rng, x)
+            return more_finals(rng, x) if rng.random() < 0.5 else x
+        na = X.xtype_pool(rng, k)
+        A = one(na)
+        q = rng.random()
+        nb = na if q < 0.3 else X.xtype_pool(rng, rng.randint(1, 4)) if q < 0.7 else gen.name_pool(rng, rng.randint(1, 4))
+        B = one(nb)
+        ctx.stat("cross_type_names_" + ("yes" if X.has_cross_type_name(A.states) else "no"))
+        for op in UNARY:
+            R = check_op(ctx, op, A, None, "cross_type_names")
+            if R is not None and rng.random() < 0.35:             # the result (old names + the invented one) again
+                check_op(ctx, rng.choice(UNARY), R, None, "cross_type_names_composition")
+        for op in rng.sample(ALL_BINARY, 3):
+            if rng.random() < 0.5:
+                check_op(ctx, op, A, B, "cross_type_names")
+            else:
+                check_op(ctx, op, B, A, "cross_type_names")
+
+
 def run(ctx: Ctx):
     rng = ctx.rng
     thorough = ctx.thorough()
@@ -574,6 +640,8 @@ def run(ctx: Ctx):
     # 3. compositions
     for _ in range(ctx.budget(350, 8000)):
         random_tree(ctx, rng, 3)
+    # 3b. round 4: state names equal across types (0 == 0.0 == False == Fraction(0))
+    cross_type_names_family(ctx, ctx.budget(90, 3000))
     # 4. round 4: the mutable-automata option — sequences of operations on the same live objects
     mutable_option_family(ctx, ctx.budget(120, 4000))
     report_budget(ctx)
@@ -605,12 +673,14 @@ def search(ctx: Ctx):
         if ctx.n_prop_fails:
             return
     mutable_option_family(ctx, ctx.budget(600, 4000))
+    if not ctx.n_prop_fails:
+        cross_type_names_family(ctx, ctx.budget(600, 4000))
 
 
 def replay(ctx: Ctx, path: str) -> int:
     data = json.load(open(path))
     rp = data.get("replay", data)
-    env = {"NFA": NFA, "frozenset": frozenset, "frozendict": dict}
+    env = dict({"NFA": NFA, "frozenset": frozenset, "frozendict": dict}, **X.EVAL_ENV)
     if rp.get("op") == "mutable_sequence":
         run_mutable_sequence(ctx, [eval(x, env) for x in rp["objs"]], rp["mode"], rp["steps"], "replay")
     else:
